@@ -51,11 +51,18 @@ fn bad_requests(tier: Tier) -> Vec<(&'static str, Vec<u8>)> {
         v.push(("expect-unsupported", format!("POST /e HTTP/1.1\r\nHost: t\r\nExpect: {}\r\nContent-Length: 3\r\n\r\nabc", e).into_bytes()));
         v.push(("expect-unsupported", format!("GET /e HTTP/1.1\r\nHost: t\r\nexpect: {}\r\n\r\n", e).into_bytes()));
     }
+    // the refused request declares a body that the client has not sent (and does not send): the
+    // 417 and the close may not wait for it
+    for e in ["100-continuee", "200-OK", "100-Continue, x"] {
+        for framing in ["Content-Length: 3", "Content-Length: 1024", "Content-Length: 2000", "Transfer-Encoding: chunked"] {
+            v.push(("expect-unsupported-body-withheld", format!("POST /e HTTP/1.1\r\nHost: t\r\nExpect: {}\r\n{}\r\n\r\n", e, framing).into_bytes()));
+        }
+    }
     // the same classes on HTTP/1.0 requests (the version must not change the verdict)
     let on_10: Vec<(&'static str, Vec<u8>)> = v
         .iter()
         .filter(|(c, b)| !c.starts_with("version") && !c.starts_with("request-line") && b.windows(8).any(|w| w == b"HTTP/1.1"))
-        .filter(|(c, _)| full(tier) || *c == "expect-unsupported" || *c == "header-without-colon")
+        .filter(|(c, _)| full(tier) || *c == "expect-unsupported" || *c == "expect-unsupported-body-withheld" || *c == "header-without-colon")
         .map(|(c, b)| {
             let s = String::from_utf8_lossy(b).replacen("HTTP/1.1", "HTTP/1.0", 1);
             // bytes >= 0x80 do not survive the lossy round trip: patch the token in place instead
